@@ -552,6 +552,18 @@ def vars_shard(shard, nshards, tier):
 def replay(path_):
     rec = json.load(open(path_))
     det = rec['detail']
+    if rec.get('signature', '').startswith('vars|'):
+        # in-situ family: the expression alone, at every node of the named document, with the family's variable bindings
+        d = [x for x in G.docs() if x.name == det.get('doc')][0]
+        w = vlib.Worker('xdrv')
+        xsl = ('<xsl:stylesheet version="1.0" xmlns:xsl="http://www.w3.org/1999/XSL/Transform" xmlns:p="u1" xmlns:q="u2"><xsl:variable name="n" select="//a"/>'
+               '<xsl:variable name="s" select="\'b\'"/><xsl:variable name="k" select="2"/><xsl:variable name="t" select="true()"/><xsl:variable name="e" select="/.."/>'
+               '<xsl:variable name="w" select="$k + count($e) div 2 + 0.5"/><xsl:template match="/"><out><xsl:for-each select="/|//node()|//@*"><xsl:variable name="m" select=".//b|@*"/>'
+               '<c s="{%s}"/></xsl:for-each></out></xsl:template></xsl:stylesheet>' % det['expr'].replace('&', '&amp;').replace('<', '&lt;').replace('"', '&quot;'))
+        print(w.request('tr', xsl, d.to_xml()))
+        print('expected', det.get('expected'), 'context', det.get('context'))
+        w.close()
+        return
     w = vlib.Worker('xdrv')
     print(w.request('doc', 'd', 'st', det['xml']))
     print(w.request('xp', 'd', det['context'], det['expr'], *['%s=%s' % kv for kv in sorted(G.NSMAP.items())]))
